@@ -592,6 +592,10 @@ impl State {
         if let Inner::Active(_, ref mut file, ref p_path) = self.inner {
             #[cfg(flexi_logger_verif)]
             crate::verif_hooks::fs_point("reopen", p_path)?;
+            // a buffering writer swallows errors when it is dropped
+            file.flush().unwrap_or_else(|e| {
+                eprint_err(ErrorCode::Flush, "flushing failed", &e);
+            });
             match OpenOptions::new().create(true).append(true).open(p_path) {
                 Ok(f) => {
                     // proved to work on standard windows, linux, mac
